@@ -34,6 +34,8 @@ func runC06(c *Ctx) {
 	scanTotal(c)
 	// every element goroutine is joined before the list is inspected (C05/wg-accounting)
 	c05WG(c)
+	dispatchDoneLast(c)
+	dispatchOnce(c)
 }
 
 // guardedFields lists struct fields and the mutex field that must be held to touch them.
